@@ -5,6 +5,7 @@ from cv import flow, rules
 from cv.rules import events_of
 
 TITLE = "Paths have one total order, shared by the source walk and every index"
+TECHNIQUE = 'static analysis: callee resolution of every ordering operation on paths, dominance (sorted before emitted), provenance of comparator operands, validated constructors'
 EXPLANATION = (
     "The comparator's algebra and the exact language of is_valid quantify over all strings and are not decided. "
     "Decided is the SHARING: (1) every ordering operation on Apath values resolves to the hand-written "
